@@ -596,22 +596,61 @@ def dispatch_rule(ctx):
             r.ok(f"SolverType.{m} has a branch")
         else:
             r.fail(f.qualname, f"member:{m}", f.file, f.lineno, "_Solve_Axb", f"SolverType.{m} falls through to NotImplementedError")
-    # convergence indicators
-    for n in ast.walk(f.node):
-        if isinstance(n, ast.Assign) and isinstance(n.targets[0], ast.Tuple) and len(n.targets[0].elts) == 2 and isinstance(n.value, ast.Call):
-            callee = dotted(n.value.func) or ""
-            flag = n.targets[0].elts[1]
-            if not isinstance(flag, ast.Name):
-                continue
-            if not (callee.startswith("sla.") or callee.startswith("_PETSc")):
-                continue
-            r.instance(fn=f.qualname)
-            reads = [x for x in ast.walk(f.node) if isinstance(x, ast.Name) and x.id == flag.id and isinstance(x.ctx, ast.Load)]
-            if reads:
-                r.ok(f"{callee}: convergence flag `{flag.id}` is checked")
-            else:
-                r.fail(f.qualname, f"unchecked:{callee}", f.file, n.lineno, "_Solve_Axb",
-                       f"{callee} returns (x, info) but `{flag.id}` is never read: a non-converged iterative solve is returned as the solution (the PETSc sibling raises on `not converged`)")
+    # convergence indicators: _Solve_Axb interpreted for every Krylov backend with a stand-in that reports non-convergence
+    # (info = 1) and convergence (info = 0): the non-converged iterate must not be returned as the solution
+    from ..xeval import EnumVal
+    from ..xarray import XArray
+
+    st_cls = repo.cls(SOLV + ".SolverType")
+    KRYLOV = ("cg", "bicg", "gmres", "lgmres", "bicgstab", "minres", "qmr")
+
+    class _Stop(Exception):
+        pass
+
+    for nm in sorted(members):
+        sel = EnumVal(st_cls, nm, members[nm])
+        outcome = {}
+        used = None
+        for info in (1, 0):
+            A = SimpleNamespace(has_canonical_format=True, shape=(3, 3))
+            simu = SimpleNamespace(Bc_Lagrange=[], solver=sel, _verbosity=False, _Solver_Get_PETSc4Py_Options=lambda pt=None: ("cg", "none", "petsc"))
+            seen = []
+
+            def hook(fn, args, kwargs, info=info, seen=seen):
+                if isinstance(fn, Opaque):
+                    tail = fn.tag.split(".")[-1]
+                    if tail == "csr_matrix":
+                        return args[0]
+                    if tail in KRYLOV:
+                        seen.append(fn.tag)
+                        return (XArray((3,), [Lin.var("x0") if False else 1, 2, 3]), info)
+                    if tail in ("spsolve", "lsq_linear"):
+                        raise _Stop()
+                fi = fn if isinstance(fn, FuncInfo) else getattr(fn, "finfo", None)
+                if isinstance(fi, FuncInfo) and fi.name in ("_PETSc", "_PETSc_MPI"):
+                    raise _Stop()
+                return NotImplemented
+
+            I = Interp(repo, extra_builtins={"MPI_SIZE": 1, "Tic": lambda *a, **k: Sink(), "CAN_USE_PYPARDISO": False, "CAN_USE_PETSC": True, "isinstance": lambda o, t: True})
+            I.call_hook = hook
+            try:
+                I.call_function(f, [simu, Opaque("pt"), A, SimpleNamespace(toarray=lambda: SimpleNamespace(ravel=lambda: Opaque("b"))), Opaque("x0"), [1], [1]])
+                outcome[info] = "returns"
+            except _Stop:
+                outcome[info] = "direct"
+            except XRaise as e:
+                outcome[info] = f"raises {e.exc_name}"
+            used = seen[0] if seen else used
+        if used is None:
+            continue  # a direct backend: no convergence indicator
+        r.instance(fn=f.qualname)
+        callee = "sla." + used.split(".")[-1]
+        if outcome.get(1) == "returns":
+            r.fail(f.qualname, f"unchecked:{callee}", f.file, f.lineno, "_Solve_Axb", f"solver = {nm}: {callee} reports non-convergence (info = 1) and _Solve_Axb returns its iterate as the solution (the PETSc sibling raises on `not converged`)")
+        elif outcome.get(0) != "returns":
+            r.fail(f.qualname, f"converged-rejected:{callee}", f.file, f.lineno, "_Solve_Axb", f"solver = {nm}: {callee} reports convergence (info = 0) and _Solve_Axb {outcome.get(0)}")
+        else:
+            r.ok(f"{callee}: a non-converged iterate ({outcome[1]}) is not returned, a converged one is")
 
 
 def incremental_rule(ctx):
